@@ -23,4 +23,19 @@ PROPS = {
              'variables for small scopes); non-trivial = at least one missing and one observed variable in the batch and an '
              'inner node; distinct = distinct (node table, pattern set)',
     ),
+    'C03': dict(
+        module='c03',
+        modules=['DeeprobModel.Props.C03'],
+        theorems=['Deeprob.checkSpn_accept_iff', 'Deeprob.checkSpn_flags_accept_iff', 'Deeprob.checkSpn_reject_first',
+                  'Deeprob.isLabeled_iff_perm', 'Deeprob.decompSpec_iff_flatten_nodup', 'Deeprob.checkSpn_sound',
+                  'Deeprob.unionOnly_unsound', 'Deeprob.collect_reach', 'Deeprob.collect_nodup'],
+        fragments=[],
+        rule='bounded-exhaustive: every children-first node table with <= 3 (quick) / 4 (thorough) nodes over leaf/sum/product '
+             'kinds x every child subset x scope labellings over two variables (+ id shift/clash/gap and weight-count '
+             'corruptions on a subsample); random valid circuits x nine single structural corruptions; every entry point called '
+             'on invalid circuits; non-trivial = more than one node; distinct = distinct node table',
+    ),
 }
+
+NOT_CLAIMED = {}
+HOOK_COMMITS = []
